@@ -66,6 +66,8 @@ class Ctx:
 def Zt(v):
     if isinstance(v, SymInt):
         return v.t
+    if isinstance(v, z3.ExprRef):
+        return v
     if isinstance(v, bool):
         return z3.IntVal(1 if v else 0)
     if isinstance(v, int):
@@ -204,17 +206,29 @@ class SymInt:
 
     __rtruediv__ = __truediv__
 
-    # comparisons
+    # comparisons (an infinite float bound compares concretely)
+    @staticmethod
+    def _inf(o):
+        return isinstance(o, float) and o in (float("inf"), float("-inf"))
+
     def __lt__(self, o):
+        if self._inf(o):
+            return o > 0
         return lift(self.t < Zt(o))
 
     def __le__(self, o):
+        if self._inf(o):
+            return o > 0
         return lift(self.t <= Zt(o))
 
     def __gt__(self, o):
+        if self._inf(o):
+            return o < 0
         return lift(self.t > Zt(o))
 
     def __ge__(self, o):
+        if self._inf(o):
+            return o < 0
         return lift(self.t >= Zt(o))
 
     def __eq__(self, o):
